@@ -57,7 +57,8 @@ def cases(draw):
     # histories: earlier calls with other thresholds that wrote to the SAME output names (all good / all bad / a split)
     before = draw(st.lists(st.sampled_from([1e31, -1., 0.75, 3.3]), max_size=2))
     return {'names': names, 'nfilt': nfilt, 'records': recs, 'criterion': crit, 'threshold': thr, 'input': form,
-            'auto': draw(st.booleans()) if form == 'file' else False, 'earlier_thresholds': before}
+            'auto': draw(st.booleans()) if form == 'file' else False, 'earlier_thresholds': before,
+            'naming': draw(st.sampled_from(['both', 'both', 'good_explicit', 'bad_explicit']))}
 
 
 def read_or_empty(path, what):
@@ -89,7 +90,16 @@ def run_case(case, ctx):
             expect_good.append(stat < thr)
         inp = os.path.join(d, 'input.fitinfo')
         fg.write_fit_file(inp, infos)
-        if case['auto']:
+        naming = case.get('naming', 'both')
+        if case['auto'] and naming == 'good_explicit':
+            good, bad = os.path.join(d, 'well_fit'), inp + '_bad'
+            kw = {'output_good': good}
+            labels.add('mixed_names')
+        elif case['auto'] and naming == 'bad_explicit':
+            good, bad = inp + '_good', os.path.join(d, 'badly_fit')
+            kw = {'output_bad': bad}
+            labels.add('mixed_names')
+        elif case['auto']:
             good, bad = inp + '_good', inp + '_bad'
             kw = {}
         else:
